@@ -19,6 +19,9 @@ def _fresh(p):
 
 
 def str_key(x):
+    g = getattr(x, "gkey", None)
+    if g is not None and is_z3(g) and g.sort() == z3.StringSort():
+        return g
     if isinstance(x, (str, SStr)):
         z = _as_sstr(x).z3()
         if z is None:
@@ -45,6 +48,15 @@ def str_val(v):
     return str_key(v)
 
 
+def _card(it, sort, arr):
+    """len() of a ghost set: an unknown L >= 0 that is 0 exactly when the set is empty (nothing else is assumed)."""
+    it.path.assumed.add("len() of a ghost set/dict: L >= 0 and L == 0 iff empty (cardinality otherwise unconstrained)")
+    L = it.path.fresh("card", z3.IntSort())
+    x = z3.Const(_fresh("cx"), sort)
+    it.path.assume(z3.And(L >= 0, (L == 0) == z3.ForAll([x], z3.Not(z3.Select(arr, x)))))
+    return L
+
+
 class GSet:
     __pyvc_symbolic__ = True
 
@@ -65,6 +77,9 @@ class GSet:
 
     def havoc(self, tag):
         self.arr = z3.Array("%s_%s" % (self.name, tag), self.sort, z3.BoolSort())
+
+    def sym_len(self, it):
+        return _card(it, self.sort, self.arr)
 
     def sym_getattr(self, it, name):
         if name == "add":
@@ -118,7 +133,10 @@ class GDict:
         self.writes += 1
 
     def sym_truth(self, it):
-        raise Unsupported("truthiness of a ghost dict")
+        return _card(it, self.ksort, self.HAS) > 0
+
+    def sym_len(self, it):
+        return _card(it, self.ksort, self.HAS)
 
     def sym_getattr(self, it, name):
         if name == "get":
@@ -153,3 +171,37 @@ def _atom_of(t):
     from .engine import Atom
 
     return Atom("val(%s)" % _fresh("v"), zs=t)
+
+
+class YLog:
+    """Ghost for the values a generator yields under a loop contract: LOG[0..cnt) (keys of the yielded objects, in order)
+    and MEM = the set of keys yielded so far (kept in step with LOG by construction)."""
+
+    __pyvc_symbolic__ = True
+
+    def __init__(self, name="yielded", key_of=int_key, sort=None):
+        self.name, self.key_of = name, key_of
+        self.sort = sort if sort is not None else z3.IntSort()
+        self.cnt = z3.IntVal(0)
+        self.LOG = z3.Array("%s_log0" % name, z3.IntSort(), self.sort)
+        self.MEM = z3.K(self.sort, z3.BoolVal(False))
+        self.objs = []
+
+    def append(self, v):
+        k = self.key_of(v)
+        self.LOG = z3.Store(self.LOG, self.cnt, k)
+        self.MEM = z3.Store(self.MEM, k, z3.BoolVal(True))
+        self.cnt = self.cnt + 1
+        self.objs.append(v)
+
+    def extend(self, items):
+        for x in items:
+            self.append(x)
+
+    def havoc(self, tag):
+        self.cnt = z3.Int("%s_cnt_%s" % (self.name, tag))
+        self.LOG = z3.Array("%s_log_%s" % (self.name, tag), z3.IntSort(), self.sort)
+        self.MEM = z3.Array("%s_mem_%s" % (self.name, tag), self.sort, z3.BoolSort())
+
+    def __bool__(self):
+        return False
